@@ -3,6 +3,7 @@ package server
 import (
 	"encoding/json"
 	"log"
+	"reflect"
 	"sync"
 
 	"github.com/cenkalti/rpc2"
@@ -125,92 +126,142 @@ func (m *monitor) Send3(id uuid.UUID, update database.Update) {
 	}
 }
 
+// filterColumns returns a copy of the row with the requested columns. All
+// columns are requested if none is named.
 func filterColumns(row *ovsdb.Row, columns map[string]bool) *ovsdb.Row {
 	if row == nil {
 		return nil
 	}
 	new := make(ovsdb.Row, len(*row))
 	for k, v := range *row {
-		if _, ok := columns[k]; ok {
+		if _, ok := columns[k]; ok || columns == nil {
 			new[k] = v
 		}
 	}
 	return &new
 }
 
+// tableRequest returns what the monitor requested for a table, nil if the
+// table is not monitored
+func (m *monitor) tableRequest(table string) (columns map[string]bool, sel *ovsdb.MonitorSelect, monitored bool) {
+	request, ok := m.request[table]
+	if !ok && len(m.request) > 0 {
+		// tables that were not requested are only watched if no table was
+		// requested at all
+		return nil, nil, false
+	}
+	sel = ovsdb.NewDefaultMonitorSelect()
+	if request == nil {
+		return nil, sel, true
+	}
+	if request.Select != nil {
+		sel = request.Select
+	}
+	if len(request.Columns) > 0 {
+		columns = make(map[string]bool, len(request.Columns)+1)
+		columns["_uuid"] = true
+		for _, c := range request.Columns {
+			columns[c] = true
+		}
+	}
+	return columns, sel, true
+}
+
+// completeRow returns the requested columns of a row, those it leaves out
+// because they hold their default value included
+func (m *monitor) completeRow(table string, row *ovsdb.Row, columns map[string]bool) *ovsdb.Row {
+	complete := filterColumns(row, columns)
+	tableSchema := m.schema.Table(table)
+	if complete == nil || tableSchema == nil {
+		return complete
+	}
+	for name, column := range tableSchema.Columns {
+		if _, ok := (*complete)[name]; ok || (columns != nil && !columns[name]) {
+			continue
+		}
+		zero := reflect.Zero(ovsdb.NativeType(column)).Interface()
+		if value, err := ovsdb.NativeToOvs(column, zero); err == nil {
+			(*complete)[name] = value
+		}
+	}
+	return complete
+}
+
 func (m *monitor) filter(update database.Update) ovsdb.TableUpdates {
-	// remove updates for tables that we aren't watching
 	tables := update.GetUpdatedTables()
 	tus := make(ovsdb.TableUpdates, len(tables))
 	for _, table := range tables {
-		if _, ok := m.request[table]; len(m.request) > 0 && !ok {
-			// only remove updates for tables that were not requested if other
-			// tables were requested, otherwise all tables are watched.
+		cols, sel, monitored := m.tableRequest(table)
+		if !monitored {
 			continue
 		}
 		tu := ovsdb.TableUpdate{}
-		cols := make(map[string]bool)
-		cols["_uuid"] = true
-		for _, c := range m.request[table].Columns {
-			cols[c] = true
-		}
 		_ = update.ForEachRowUpdate(table, func(uuid string, ru2 ovsdb.RowUpdate2) error {
-			ru := &ovsdb.RowUpdate{}
-			ru.FromRowUpdate2(ru2)
 			switch {
-			case ru.Insert() && m.request[table].Select.Insert():
-				fallthrough
-			case ru.Modify() && m.request[table].Select.Modify():
-				fallthrough
-			case ru.Delete() && m.request[table].Select.Delete():
-				if len(cols) == 0 {
+			case ru2.Insert != nil:
+				if sel.Insert() {
+					tu[uuid] = &ovsdb.RowUpdate{New: m.completeRow(table, ru2.New, cols)}
+				}
+			case ru2.Modify != nil:
+				// only the monitored columns that changed are reported as old
+				changed := filterColumns(ru2.Modify, cols)
+				delete(*changed, "_uuid")
+				if !sel.Modify() || len(*changed) == 0 {
 					return nil
 				}
-				ru.New = filterColumns(ru.New, cols)
-				ru.Old = filterColumns(ru.Old, cols)
-				tu[uuid] = ru
+				old := m.completeRow(table, ru2.Old, cols)
+				for column := range *old {
+					if _, ok := (*changed)[column]; !ok {
+						delete(*old, column)
+					}
+				}
+				tu[uuid] = &ovsdb.RowUpdate{Old: old, New: m.completeRow(table, ru2.New, cols)}
+			case ru2.Delete != nil:
+				if sel.Delete() {
+					tu[uuid] = &ovsdb.RowUpdate{Old: m.completeRow(table, ru2.Old, cols)}
+				}
 			}
 			return nil
 		})
-		tus[table] = tu
+		if len(tu) > 0 {
+			tus[table] = tu
+		}
 	}
 	return tus
 }
 
 func (m *monitor) filter2(update database.Update) ovsdb.TableUpdates2 {
-	// remove updates for tables that we aren't watching
 	tables := update.GetUpdatedTables()
 	tus2 := make(ovsdb.TableUpdates2, len(tables))
 	for _, table := range tables {
-		if _, ok := m.request[table]; len(m.request) > 0 && !ok {
-			// only remove updates for tables that were not requested if other
-			// tables were requested, otherwise all tables are watched.
+		cols, sel, monitored := m.tableRequest(table)
+		if !monitored {
 			continue
 		}
 		tu2 := ovsdb.TableUpdate2{}
-		cols := make(map[string]bool)
-		cols["_uuid"] = true
-		for _, c := range m.request[table].Columns {
-			cols[c] = true
-		}
 		_ = update.ForEachRowUpdate(table, func(uuid string, ru2 ovsdb.RowUpdate2) error {
 			switch {
-			case ru2.Insert != nil && m.request[table].Select.Insert():
-				fallthrough
-			case ru2.Modify != nil && m.request[table].Select.Modify():
-				fallthrough
-			case ru2.Delete != nil && m.request[table].Select.Delete():
-				if len(cols) == 0 {
-					return nil
+			case ru2.Insert != nil:
+				if sel.Insert() {
+					tu2[uuid] = &ovsdb.RowUpdate2{Insert: filterColumns(ru2.Insert, cols)}
 				}
-				ru2.Insert = filterColumns(ru2.Insert, cols)
-				ru2.Modify = filterColumns(ru2.Modify, cols)
-				ru2.Delete = filterColumns(ru2.Delete, cols)
-				tu2[uuid] = &ru2
+			case ru2.Modify != nil:
+				modify := filterColumns(ru2.Modify, cols)
+				delete(*modify, "_uuid")
+				// nothing to report if no monitored column changed
+				if sel.Modify() && len(*modify) > 0 {
+					tu2[uuid] = &ovsdb.RowUpdate2{Modify: modify}
+				}
+			case ru2.Delete != nil:
+				if sel.Delete() {
+					tu2[uuid] = &ovsdb.RowUpdate2{Delete: &ovsdb.Row{}}
+				}
 			}
 			return nil
 		})
-		tus2[table] = tu2
+		if len(tu2) > 0 {
+			tus2[table] = tu2
+		}
 	}
 	return tus2
 }
